@@ -950,7 +950,7 @@ pub fn c06(cfg: &Config, tr: &Trace, an: &Analysis, out: &mut Vec<Violation>) {
             }
             max_seen = max_seen.max(in_flight);
             if let Some(k) = limit {
-                if in_flight > k as i64 {
+                if i128::from(in_flight) > k as i128 {
                     out.push(v(
                         "C06",
                         "over-limit",
@@ -1685,7 +1685,7 @@ pub fn check_duplicates(cfg: &Config, tr: &Trace) -> Vec<Violation> {
                 Some(ScEv::Finished) => fl -= 1,
                 _ => {}
             }
-            if fl > k as i64 {
+            if i128::from(fl) > k as i128 {
                 out.push(v("C06", "over-limit", format!("{fl} attempts in flight with limit {k}")));
                 break;
             }
